@@ -37,6 +37,11 @@ OBLIGATIONS = {
 BOUND = {"quick": "data lengths 1..600, sequences <= 3, stacks <= 4 items", "thorough": "data lengths 1..1000, stacks <= 20 items"}
 
 
+def _hx(v, n=8):
+    """printable form of whatever the library returned (never raises)"""
+    return (bytes(v[:n]).hex() + f".. ({len(v)}B)") if isinstance(v, (bytes, bytearray)) else repr(v)[:80]
+
+
 def call(fn, *a, **kw):
     try:
         return ("ok", fn(*a, **kw))
@@ -84,7 +89,7 @@ def chk_prog(case):
     if got[1] != exp:
         big = max([v for k, v in case["prog"] if k == "data"] + [len(v) // 2 for k, v in case["prog"] if k == "hex"] + [0])
         cls = "direct" if big <= 75 else "pushdata1" if big <= 255 else "pushdata2" if big <= 65535 else "pushdata4"
-        return [(f"C13/assemble/bytes/{cls}", f"script({desc}) = {got[1][:8].hex()}.. ({len(got[1])}B), expected {exp[:8].hex()}.. ({len(exp)}B)")]
+        return [(f"C13/assemble/bytes/{cls}", f"script({desc}) = {_hx(got[1], 8)}, expected {exp[:8].hex()}.. ({len(exp)}B)")]
     dec = call(bs.decode_script, exp)
     if dec[0] != "ok":
         return [("C13/disassemble/raised", f"decode_script(script({desc})) raised {dec[1]}")]
@@ -122,7 +127,7 @@ def chk_witness(case):
     got = call(bs.script, [i.hex() for i in items], witness=True)
     cls = "empty-stack" if not items else "item>=253" if max(case["lens"]) >= 253 else "small"
     if got != ("ok", exp):
-        return [(f"C13/witness/serialise/{cls}", f"script(items {case['lens']}, witness=True) = {str(got[1])[:60] if got[0] != 'ok' else got[1][:6].hex()}")]
+        return [(f"C13/witness/serialise/{cls}", f"script(items {case['lens']}, witness=True) = {str(got[1])[:60] if got[0] != 'ok' else _hx(got[1], 6)}")]
     dec = call(bs.decode_script, exp + tail, witness=True)
     if dec[0] != "ok" or not isinstance(dec[1], tuple) or list(dec[1][0]) != [i.hex() for i in items] or dec[1][1] != tail:
         return [(f"C13/witness/parse/{cls}", f"decode_script(stack {case['lens']} + {len(tail)}B tail, witness=True) = {str(dec)[:160]}")]
@@ -194,12 +199,14 @@ def chk_builder(case):
     cls = "<=75" if size <= 75 else "76..255" if size <= 255 else ">255"
     if got[0] != "ok":
         return [(f"C13/builder/{b}/raised/{cls}", f"{label} raised {got[1]}")]
+    if not isinstance(got[1], (bytes, bytearray)):
+        return [(f"C13/builder/{b}/wrong-type/{cls}", f"{label} = {got[1]!r:.80} is not a byte string")]
     try:
-        items, minimal = SR.disassemble(got[1])
+        items, minimal = SR.disassemble(bytes(got[1]))
     except ValueError:
-        return [(f"C13/builder/{b}/malformed/{cls}", f"{label} = {got[1][:12].hex()}.. does not disassemble (truncated push)")]
+        return [(f"C13/builder/{b}/malformed/{cls}", f"{label} = {_hx(got[1], 12)} does not disassemble (truncated push)")]
     if items != want and items != alt:
-        return [(f"C13/builder/{b}/wrong-disassembly/{cls}", f"{label} = {got[1][:12].hex()}.. disassembles to "
+        return [(f"C13/builder/{b}/wrong-disassembly/{cls}", f"{label} = {_hx(got[1], 12)} disassembles to "
                  f"{[(k, v if k == 'op' else len(v)) for k, v in items][:8]}, intended {[(k, v if k == 'op' else len(v)) for k, v in want][:8]}")]
     if not minimal:
         return [(f"C13/builder/{b}/non-minimal-push", f"{label} uses a longer push than needed")]
